@@ -279,6 +279,7 @@ def run_operators(res: Result, dim):
         "==": (lambda a, b: a == b, lambda a, b: a.equal(b)), "!=": (lambda a, b: a != b, lambda a, b: a.not_equal(b)),
         "neg": (lambda a, b: -a, lambda a, b: a.scale(-1)), "pos": (lambda a, b: +a, lambda a, b: a),
         "abs": (lambda a, b: abs(a), lambda a, b: getattr(a, nn)), "**2": (lambda a, b: a**2, lambda a, b: getattr(a, n2)),
+        "**3": (lambda a, b: a**3, lambda a, b: getattr(a, nn) ** 3),
     }
     for ba, bb in itertools.product(BK, BK):
         for sa in (L.CART[dim], L.SYSTEMS[dim][-1]):
@@ -286,7 +287,7 @@ def run_operators(res: Result, dim):
             for fa, fb in itertools.product(("generic", "momentum"), repeat=2):
                 va, vb = operand(ba, dim, sa, fa, "a"), operand(bb, dim, sb, fb, "b")
                 for name, (f, g) in forms.items():
-                    unary = name in ("*", "r*", "/", "neg", "pos", "abs", "**2")
+                    unary = name in ("*", "r*", "/", "neg", "pos", "abs", "**2", "**3")
                     if unary and (bb != ba or fb != fa):
                         continue
                     res.states += 1
